@@ -141,7 +141,93 @@ def translate(repo):
     return policy, scripts, signatures
 
 
-def coq_text(policy, scripts):
+def _methods(text):
+    """{name: (decorator or '', signature, statements)} of the methods of one class body"""
+    pieces = re.split(r"^    (?=@|def |cpdef |cdef )", text, flags=re.M)
+    chunks = []
+    for pc in pieces:
+        if chunks and re.fullmatch(r"@[\w.]+\s*", chunks[-1]):
+            chunks[-1] += pc
+        else:
+            chunks.append(pc)
+    out = {}
+    for ch in chunks:
+        m = re.match(r"(?:@([\w.]+)\s*\n\s*)?(?:def|cpdef \w+|cpdef)\s+(\w+)\(([^)]*)\):\s*\n((?:.|\n)*)", ch)
+        if m:
+            out[(m.group(1) or "", m.group(2))] = (m.group(3), code_lines(m.group(4)))
+    return out
+
+
+def translate_spectrum(repo):
+    """policy of the LaserSpectrum / GaussianSpectrum setters and accessors (fail closed)"""
+    base = open(os.path.join(repo, "cherab/core/laser/laserspectrum.pyx")).read()
+    model = open(os.path.join(repo, "cherab/core/model/laser/laserspectrum.pyx")).read()
+    mb = re.split(r"^cdef class LaserSpectrum\(Function1D\):\s*$", base, flags=re.M)
+    if len(mb) != 2:
+        raise TranslationError("class LaserSpectrum not found")
+    bm = _methods(mb[1])
+    mg = re.split(r"^cdef class GaussianSpectrum\(LaserSpectrum\):\s*$", model, flags=re.M)
+    if len(mg) != 2:
+        raise TranslationError("class GaussianSpectrum not found")
+    gm = _methods(mg[1])
+
+    def need(methods, key, sig, lines, what):
+        if key not in methods:
+            raise TranslationError("%s: not found" % what)
+        gs, gl = methods[key]
+        if re.sub(r"\s+", " ", gs.strip()) != sig or gl != lines:
+            raise TranslationError("%s: unrecognised shape: (%s) %s" % (what, gs, gl))
+
+    pol = {}
+    need(bm, ("min_wavelength.setter", "min_wavelength"), "self, double value",
+         ["self._check_wavelength_validity(value, self.max_wavelength)", "self._min_wavelength = value", "self._update_cache()"], "min_wavelength setter")
+    pol["AMin"] = ("false", "CRangeMin", "RAlways")
+    need(bm, ("max_wavelength.setter", "max_wavelength"), "self, double value",
+         ["self._check_wavelength_validity(self.min_wavelength, value)", "self._max_wavelength = value", "self._update_cache()"], "max_wavelength setter")
+    pol["AMax"] = ("false", "CRangeMax", "RAlways")
+    need(bm, ("bins.setter", "bins"), "self, int value",
+         ["if value <= 0:", 'raise ValueError("Value has to be larger than 0")', "self._bins = value", "self._update_cache()"], "bins setter")
+    pol["ABins"] = ("false", "CPos", "RAlways")
+    need(gm, ("stddev.setter", "stddev"), "self, value",
+         ["if value <= 0:", 'raise ValueError("Value has to be larger than 0")', "self._stddev = value", "self._recip_stddev = 1 / value",
+          "self._normalisation = 1 / (value * sqrt(2 * M_PI))", "self._norm_cdf = 1 / (value * M_SQRT2)",
+          "if self._bins > 0:", "self._update_cache()"], "stddev setter")
+    pol["AStd"] = ("true", "CPos", "RIfInit")
+    need(gm, ("mean.setter", "mean"), "self, double value",
+         ["if value <= 0:", 'raise ValueError("Value has to be larger than 0")', "self._mean = value", "if self._bins > 0:", "self._update_cache()"],
+         "mean setter")
+    pol["AMean"] = ("true", "CPos", "RIfInit")
+    const_body = re.split(r"^cdef class GaussianSpectrum", re.split(r"^cdef class ConstantSpectrum\(LaserSpectrum\):\s*$", model, flags=re.M)[1], flags=re.M)[0]
+    if ".setter" in const_body:
+        raise TranslationError("ConstantSpectrum defines a property setter")
+    # _check_wavelength_validity = range_invalid of the model
+    key = ("", "_check_wavelength_validity")
+    if key not in bm:
+        raise TranslationError("_check_wavelength_validity not found")
+    cl = [l for l in bm[key][1] if not l.startswith("raise ValueError(")]
+    if cl != ["if min_wavelength <= 0:", "if max_wavelength <= 0:", "if min_wavelength >= max_wavelength:"]:
+        raise TranslationError("_check_wavelength_validity: unrecognised shape %s" % cl)
+    # constructors
+    need(bm, ("", "__init__"), "self, double min_wavelength, double max_wavelength, int bins",
+         ["super().__init__()", "self._check_wavelength_validity(min_wavelength, max_wavelength)", "self._min_wavelength = min_wavelength",
+          "self._max_wavelength = max_wavelength", "self.bins = bins"], "LaserSpectrum.__init__")
+    need(gm, ("", "__init__"), "self, double min_wavelength, double max_wavelength, int bins, double mean, double stddev",
+         ["self.stddev = stddev", "self.mean = mean", "super().__init__(min_wavelength, max_wavelength, bins)"], "GaussianSpectrum.__init__")
+    # accessors
+    acc = {}
+    for g, nm in (("GMin", "get_min_wavelenth"), ("GMax", "get_max_wavelenth"), ("GDelta", "get_delta_wavelength")):
+        if ("", nm) not in bm or len(bm[("", nm)][1]) != 1:
+            raise TranslationError("accessor %s not found" % nm)
+        m = re.fullmatch(r"return self\._(min_wavelength|max_wavelength|delta_wavelength)", bm[("", nm)][1][0])
+        if not m:
+            raise TranslationError("accessor %s: %s" % (nm, bm[("", nm)][1]))
+        acc[g] = {"min_wavelength": "WMin", "max_wavelength": "WMax", "delta_wavelength": "WDelta"}[m.group(1)]
+    if bm.get(("", "get_spectral_bins"), (None, None))[1] != ["return self._bins"]:
+        raise TranslationError("get_spectral_bins: %s" % (bm.get(("", "get_spectral_bins")),))
+    return pol, acc
+
+
+def coq_text(policy, scripts, spol=None, sacc=None):
     kinds = ["KUniform", "KBiv", "KTri", "KBeam"]
     rows = []
     for k in kinds:
@@ -186,4 +272,26 @@ Definition policy_agrees : bool :=
 
 Lemma policy_ok : policy_agrees = true.
 Proof. vm_compute. reflexivity. Qed.
-""" % (";\n  ".join(rows), "\n".join("  | %s => [%s]" % (k, "; ".join(scripts[k])) for k in kinds))
+%s""" % (";\n  ".join(rows), "\n".join("  | %s => [%s]" % (k, "; ".join(scripts[k])) for k in kinds), spectrum_text(spol, sacc))
+
+
+def spectrum_text(spol, sacc):
+    if spol is None:
+        return ""
+    return """
+(* ---- spectra: laserspectrum.pyx (core/laser and core/model/laser) ---- *)
+Require Import Cherab.Model.C18_Spectrum.
+Definition gen_spolicy : list (sattr * (bool * scheck * srebin)) := [%s].
+Definition gen_acc : list (sacc * sfield) := [%s].
+Definition scheck_eqb (a b : scheck) := match a, b with CRangeMin, CRangeMin | CRangeMax, CRangeMax | CPos, CPos => true | _, _ => false end.
+Definition srebin_eqb (a b : srebin) := match a, b with RAlways, RAlways | RIfInit, RIfInit => true | _, _ => false end.
+Definition sfield_eqb (a b : sfield) := match a, b with WMin, WMin | WMax, WMax | WDelta, WDelta => true | _, _ => false end.
+Definition spolicy_agrees : bool :=
+  forallb (fun row => let '(a, (g, c, r)) := row in
+             Bool.eqb (gauss_only a) g && scheck_eqb (check_of a) c && srebin_eqb (rebin_of a) r) gen_spolicy
+  && (length gen_spolicy =? 5)%%nat
+  && forallb (fun row => sfield_eqb (acc_field (fst row)) (snd row)) gen_acc && (length gen_acc =? 3)%%nat.
+Lemma spolicy_ok : spolicy_agrees = true.
+Proof. vm_compute. reflexivity. Qed.
+""" % ("; ".join("(%s, (%s, %s, %s))" % ((a,) + spol[a]) for a in ("AMin", "AMax", "ABins", "AMean", "AStd")),
+       "; ".join("(%s, %s)" % (g, sacc[g]) for g in ("GMin", "GMax", "GDelta")))
